@@ -97,6 +97,9 @@ class Tr(object):
         """-> (coq, type).  conds: list of Prop strings; guard: list of bool-exprs (coq) that hold."""
         ctx = self.ctx
         src = ast.unparse(e)
+        for al, full in getattr(ctx, 'alias', {}).items():
+            if src.startswith(al + '.'):
+                src = full + src[len(al):]         # a local name bound to `self.state.position` (and never re-bound) stands for it
         if src in ctx.exprmap:
             return ctx.exprmap[src]
 
@@ -233,6 +236,25 @@ class Tr(object):
         fail(e, 'expression')
 
 
+def definitely(stmts):
+    """variables assigned on every path through stmts (plain names only)"""
+    out = []
+    for s in stmts:
+        if isinstance(s, ast.Assign):
+            for t in s.targets:
+                if isinstance(t, ast.Name) and t.id not in out:
+                    out.append(t.id)
+        elif isinstance(s, ast.AugAssign) and isinstance(s.target, ast.Name):
+            if s.target.id not in out:
+                out.append(s.target.id)
+        elif isinstance(s, ast.If):
+            other = definitely(s.orelse)
+            for v in definitely(s.body):
+                if v in other and v not in out:
+                    out.append(v)
+    return out
+
+
 def assigned(stmts):
     out = []
     for s in stmts:
@@ -337,7 +359,14 @@ class Fn(object):
                 fail(s, 'assignment target')
             v = s.targets[0].id
             if ast.unparse(s.value) in ctx.spec.get('skip_assign', []):
+                if v in ctx.env:
+                    fail(s, 'alias %s re-uses a variable name' % v)
+                if not hasattr(ctx, 'alias'):
+                    ctx.alias = {}
+                ctx.alias[v] = ast.unparse(s.value)
                 return self.block(rest, final)
+            if v in getattr(ctx, 'alias', {}):
+                fail(s, 'alias %s is bound again' % v)
             conds = []
             c, t = self.tr.expr(s.value, conds, [])
             return self.bind(s, v, c, t, conds, rest, final)
@@ -380,14 +409,23 @@ class Fn(object):
                         conj(conds + [ifsafe(c, sa, sb)]))
             merged = [v for v in assigned(s.body) + assigned(s.orelse) if v in ctx.env]
             merged = list(dict.fromkeys(merged))
+            # a variable first defined by the if-statement, on both of its paths (x = a in one branch, x = b in the other)
+            fresh = [v for v in definitely(s.body) if v in definitely(s.orelse) and v not in ctx.env]
+            merged += fresh
             if not merged:
                 fail(s, 'if-statement assigns no previously defined variable')
             saved = dict(ctx.env)
             tup = self.tuple_of(merged)
             a, sa = self.block(s.body, (tup, 'True'))
+            env_a = dict(ctx.env)
             ctx.env = dict(saved)
             b, sb = self.block(s.orelse, (tup, 'True'))
+            env_b = dict(ctx.env)
             ctx.env = dict(saved)
+            for v in fresh:
+                if env_a.get(v) is None or env_a.get(v) != env_b.get(v):
+                    fail(s, 'variable %s defined with different types on the two paths of an if-statement' % v)
+                ctx.env[v] = env_a[v]
             r, sr = self.block(rest, final)
             head = 'let %s := (if %s then %s else %s) in' % (self.pat_of(merged), c, a, b)
             return ('(%s\n  %s)' % (head, r),
@@ -479,8 +517,6 @@ def translate(spec):
 ARC_EXPRMAP = {
     'self.state.position.X_AXIS.nativeToLogical()': ('posX', 'R'),
     'self.state.position.Y_AXIS.nativeToLogical()': ('posY', 'R'),
-    'position.X_AXIS.nativeToLogical()': ('posX', 'R'),
-    'position.Y_AXIS.nativeToLogical()': ('posY', 'R'),
 }
 
 FILES = {
@@ -510,7 +546,7 @@ FILES = {
     'GenArc.v': [
         dict(file='GcodeHandlers.py', cls='GcodeHandlers', func='planArc', name='planArc',
              params=[('posX', 'R'), ('posY', 'R'), ('endX', 'R'), ('endY', 'R'), ('i', 'R'), ('j', 'R'), ('clockwise', 'B')],
-             exprmap=ARC_EXPRMAP),
+             exprmap=ARC_EXPRMAP, skip_assign=['self.state.position']),
         dict(file='GcodeHandlers.py', cls='GcodeHandlers', func='computeArcCenterOffsets', name='computeArcCenterOffsets',
              params=[('posX', 'R'), ('posY', 'R'), ('endX', 'R'), ('endY', 'R'), ('radius', 'R'), ('clockwise', 'B')],
              exprmap=ARC_EXPRMAP, skip_assign=['self.state.position'], var_types={'i': 'R', 'j': 'R'}),
